@@ -49,6 +49,15 @@ Theorem c20_all_before_stop_replied : forall n w q s, reachable n w q s -> 1 <= 
 Proof. exact returned_all_done. Qed.
 Print Assumptions c20_all_before_stop_replied.
 
+(** ... split by reply subject: the accepted requests that carry a reply subject are exactly the
+    processed ones (equal as multisets: each exactly once), those without were discarded *)
+Theorem c20_accepted_with_reply_processed_once : forall n w q s,
+  reachable n w q s -> 1 <= w -> serve s = SReturned ->
+  Permutation (filter has_reply (accepted (g s))) (finished (g s))
+  /\ Permutation (filter (fun m => negb (has_reply m)) (accepted (g s))) (noreply (g s)).
+Proof. exact returned_by_reply. Qed.
+Print Assumptions c20_accepted_with_reply_processed_once.
+
 (** no request id is answered twice (in any reachable state) *)
 Theorem c20_replies_unique : forall n w q s, reachable n w q s ->
   NoDup (map mid (published (g s))) -> NoDup (replied (g s)).
